@@ -48,6 +48,7 @@ func runC01(c *Ctx, r *Report) {
 	c01Census(c, r, scope, ri)
 	c01MapNonNil(c, r, scope, roots)
 	c01StdlibArgs(c, r, scope)
+	c01ByteOrderLens(c, r, scope)
 	c01NilSafety(c, r, scope, roots, ri.module())
 	c01Loops(c, r, scope)
 	// R4
@@ -796,6 +797,7 @@ func c01Loops(c *Ctx, r *Report, scope []*ssa.Function) {
 				stack = append(stack, x.Preds...)
 			}
 			cls, why := "", ""
+			wrapWhy := ""
 			// range loops
 			for _, ins := range h.Instrs {
 				if phi, ok := ins.(*ssa.Phi); ok && phi.Comment == "rangeindex" {
@@ -830,7 +832,23 @@ func c01Loops(c *Ctx, r *Report, scope []*ssa.Function) {
 						if add, ok := e.(*ssa.BinOp); ok && add.Op == token.ADD && (add.X == ssa.Value(phi) || stripConv(add.X) == ssa.Value(phi)) {
 							st := bc.rangeAt(add.Y, add.Block())
 							if st.okLo && st.lo >= 1 {
-								stepOK = true
+								// the counter must reach the bound without wrapping round its type: from below the
+								// bound, one more step stays representable
+								tr := typeRange(phi.Type())
+								bd := bc.rangeAt(bo.Y, blk)
+								lim := bd.hi - 1
+								if bo.Op == token.LEQ {
+									lim = bd.hi
+								}
+								typeHi := int64(1<<31 - 1) // int / uint are at least 32 bits wide
+								if tr.okHi && (tr.hi < typeHi || width(basicOf(phi.Type())) == 64) {
+									typeHi = tr.hi
+								}
+								if st.okHi && bd.okHi && lim <= typeHi-st.hi {
+									stepOK = true
+								} else {
+									wrapWhy = fmt.Sprintf("%s is advanced by %s towards a bound in %s and can wrap round its type before reaching it", phi.Comment, st.String(), bd.String())
+								}
 							}
 						}
 					}
@@ -882,7 +900,11 @@ func c01Loops(c *Ctx, r *Report, scope []*ssa.Function) {
 				}
 			}
 			if cls == "" {
-				r.fail("C01-R3-loops", key, c.pos(firstPos(h)), "loop without a recognised termination argument (not a range loop, not a counted loop with positive step and invariant bound, no input-consuming call on every iteration): a crafted input may hang the decoder")
+				msg := "loop without a recognised termination argument (not a range loop, not a counted loop with positive step and invariant bound, no input-consuming call on every iteration): a crafted input may hang the decoder"
+				if wrapWhy != "" {
+					msg = "counted loop whose counter can overflow: " + wrapWhy + ": for such a bound the loop never ends"
+				}
+				r.fail("C01-R3-loops", key, c.pos(firstPos(h)), msg)
 				continue
 			}
 			classes[cls]++
